@@ -67,6 +67,8 @@ def _case(draw, tier):
                 n.pop("cache", None)
     c["self_unregister"] = prob(draw, 0.25)  # the failing observer removes itself from the caller's list when it fails
     c["unhashable"] = prob(draw, 0.2)  # observers written as @dataclass / with __eq__ are not hashable
+    c["sized"] = prob(draw, 0.2)  # collectors that expose len() = number of events seen (empty, hence falsy, when the run starts)
+    c["bad_repr"] = prob(draw, 0.2)  # a broken observer whose repr()/str() fails too once it has failed
     c["exc"] = draw(st.sampled_from(["message", "message", "empty", "bare_class", "multiline", "non_str_args", "keyerror_empty",
                                      "timeout", "timeout", "connection", "assertion", "stop_iteration"]))
     # the observed call is the SECOND one on the same runner (warm cache: cached nodes are served as cache hits, which have their
@@ -120,7 +122,7 @@ def _leave(p):
                 break
 
 
-def _make_probe_classes(exc_kind="message", suspend=0, unhashable=False):
+def _make_probe_classes(exc_kind="message", suspend=0, unhashable=False, sized=False, bad_repr=False):
     import asyncio
 
     from hypergraph.events import AsyncEventProcessor, EventProcessor
@@ -178,6 +180,17 @@ def _make_probe_classes(exc_kind="message", suspend=0, unhashable=False):
         for cls in (Probe, AsyncProbe):
             cls.__eq__ = lambda self, other: self is other
             cls.__hash__ = None
+    if sized:
+        for cls in (Probe, AsyncProbe):
+            cls.__len__ = lambda self: len(self.events)
+    if bad_repr:
+        def _repr(self):
+            if self.fail_at is not None and self.i > 0:
+                raise _exc(exc_kind, "in repr")
+            return object.__repr__(self)
+        for cls in (Probe, AsyncProbe):
+            cls.__repr__ = _repr
+            cls.__str__ = _repr
     return Probe, AsyncProbe
 
 
@@ -207,7 +220,7 @@ def _err(e):
 
 
 def check_case(case, ev):
-    Probe, AsyncProbe = _make_probe_classes(case.get("exc", "message"), case.get("suspend", 0), case.get("unhashable", False))
+    Probe, AsyncProbe = _make_probe_classes(case.get("exc", "message"), case.get("suspend", 0), case.get("unhashable", False), case.get("sized", False), case.get("bad_repr", False))
     use_async_style = case["async_style"] and case["runner"] != "sync"
     P = AsyncProbe if use_async_style else Probe
     labels = {f"kind:{case['kind']}", f"method:{case['method']}", f"runner:{case['runner']}", "style:" + ("async" if use_async_style else "sync"), "exc:" + case.get("exc", "message")}
@@ -223,7 +236,11 @@ def check_case(case, ev):
         suspend = 0
     if suspend and use_async_style:
         labels.add("suspending_async_observer")
-    Probe, AsyncProbe = _make_probe_classes(case.get("exc", "message"), suspend, case.get("unhashable", False))
+    Probe, AsyncProbe = _make_probe_classes(case.get("exc", "message"), suspend, case.get("unhashable", False), case.get("sized", False), case.get("bad_repr", False))
+    if case.get("sized"):
+        labels.add("observer_with_len")
+    if case.get("bad_repr"):
+        labels.add("failing_observer_whose_repr_fails")
     P = AsyncProbe if use_async_style else Probe
 
     warm = bool(case.get("warm")) and _any_cached(case.get("nodes") or []) and not suspend
